@@ -531,9 +531,172 @@ func c18Options(v *verifOut, st c18Set, inBound bool) c18Opts {
 		v.Oracle(ok, "wf:node-not-in-exactly-one-partition", "a generated view does not place every configured node in exactly one of the k partitions", map[string]any{"settings": meta, "option": key})
 		v.Oracle(opt.Leader >= 1 && int(opt.Leader) <= int(st.Nodes), "wf:leader-not-configured", "the leader of a generated view is not a configured replica", map[string]any{"settings": meta, "option": key})
 	}
+	c18PartitioningsOracle(v, st, lp, meta)
 	v.Seen(fmt.Sprintf("opts %v", st), len(lp) > 1, map[string]any{"settings": meta, "options": len(lp)})
 	v.Case(so, fmt.Sprintf("(%s,%s,%s,Ok %s)", gNat(int(st.Nodes)), gNat(int(st.Twins)), gNat(int(st.Parts)), gList(vs)), meta)
 	return o
+}
+
+func c18PartsKey(parts [][]NodeID) string {
+	var sb strings.Builder
+	for _, p := range parts {
+		sb.WriteString("|")
+		for _, id := range p {
+			fmt.Fprintf(&sb, "%d.%d,", id.ReplicaID, id.TwinID)
+		}
+	}
+	return sb.String()
+}
+
+// c18SpecPartitionings re-enumerates, from the specification and independently of generator.go, the
+// partitionings NewGenerator must produce for (numNodes, numTwins, k). The exact invariant of the generator
+// (coq/Twins/GeneratorModel.v gen_partition_scenarios) is:
+//   - n = network nodes = both twins of replicas 1..t (t = min(numTwins, numNodes)) + replicas t+1..numNodes;
+//   - one partitioning for every size vector (non-increasing, k entries, sum n, trailing zeros = unused
+//     partitions) x every assignment of each twin pair p to partition indices (a_p, b_p) with a_p <= b_p < k
+//     (first twin rXn1 into a_p, second twin rXn2 into b_p: the canonical placement) whose per-partition demand
+//     fits the sizes;
+//   - the non-twin replicas are not enumerated: they fill the partitions in index order, in id order, up to
+//     the sizes.
+func c18SpecPartitionings(numNodes, numTwins, k int) map[string]bool {
+	t := numTwins
+	if t > numNodes {
+		t = numNodes
+	}
+	n := numNodes + t
+	var sizes [][]int
+	var recSizes func(pre []int, left, maxPart int)
+	recSizes = func(pre []int, left, maxPart int) {
+		if len(pre) == k {
+			if left == 0 {
+				sizes = append(sizes, append([]int(nil), pre...))
+			}
+			return
+		}
+		for x := min(left, maxPart); x >= 0; x-- {
+			recSizes(append(pre, x), left-x, x)
+		}
+	}
+	recSizes(nil, n, n)
+	var pairs [][2]int
+	for a := 0; a < k; a++ {
+		for b := a; b < k; b++ {
+			pairs = append(pairs, [2]int{a, b})
+		}
+	}
+	assigns := [][][2]int{nil}
+	for p := 0; p < t; p++ {
+		var next [][][2]int
+		for _, a := range assigns {
+			for _, pr := range pairs {
+				next = append(next, append(append([][2]int(nil), a...), pr))
+			}
+		}
+		assigns = next
+	}
+	out := map[string]bool{}
+	for _, sz := range sizes {
+		for _, as := range assigns {
+			parts := make([][]NodeID, k)
+			ok := true
+			for p, pr := range as {
+				parts[pr[0]] = append(parts[pr[0]], NodeID{hotstuff.ID(p + 1), 1})
+				parts[pr[1]] = append(parts[pr[1]], NodeID{hotstuff.ID(p + 1), 2})
+			}
+			for j := range parts {
+				if len(parts[j]) > sz[j] {
+					ok = false
+				}
+			}
+			if !ok {
+				continue
+			}
+			next := t + 1
+			for j := range parts {
+				for len(parts[j]) < sz[j] {
+					parts[j] = append(parts[j], NodeID{hotstuff.ID(next), 0})
+					next++
+				}
+				sort.Slice(parts[j], func(a, b int) bool {
+					if parts[j][a].ReplicaID != parts[j][b].ReplicaID {
+						return parts[j][a].ReplicaID < parts[j][b].ReplicaID
+					}
+					return parts[j][a].TwinID < parts[j][b].TwinID
+				})
+			}
+			out[c18PartsKey(parts)] = true
+		}
+	}
+	return out
+}
+
+// c18PartitioningsOracle: canonical twin placement, and the set of generated partitionings is the specified one.
+func c18PartitioningsOracle(v *verifOut, st c18Set, lp []View, meta map[string]any) {
+	if st.Nodes < 1 || st.Parts < 1 || int(st.Nodes)+int(st.Twins) > 12 || st.Twins >= st.Nodes {
+		// without a non-twin replica there is no leader, hence no option through which a partitioning shows
+		return
+	}
+	t := int(st.Twins)
+	if t > int(st.Nodes) {
+		t = int(st.Nodes)
+	}
+	have := map[string]bool{}
+	var order []string
+	okCanon := true
+	var badCanon map[string]any
+	for _, opt := range lp {
+		parts := make([][]NodeID, len(opt.Partitions))
+		where := map[NodeID]int{}
+		for j, p := range opt.Partitions {
+			parts[j] = c18SortedPart(p)
+			for _, id := range parts[j] {
+				where[id] = j
+			}
+		}
+		key := c18PartsKey(parts)
+		if !have[key] {
+			have[key] = true
+			order = append(order, key)
+		}
+		for r := 1; r <= t; r++ {
+			a, okA := where[NodeID{hotstuff.ID(r), 1}]
+			b, okB := where[NodeID{hotstuff.ID(r), 2}]
+			if okA && okB && a > b && okCanon {
+				okCanon = false
+				badCanon = map[string]any{"settings": meta, "scenario": key, "replica": r, "first_twin_partition": a, "second_twin_partition": b}
+			}
+		}
+	}
+	v.Oracle(okCanon, "gen.twins:placement-not-canonical", "the first twin of a replica is placed in a later partition than its second twin (placements are enumerated as pairs i <= j)", badCanon)
+	spec := c18SpecPartitionings(int(st.Nodes), int(st.Twins), int(st.Parts))
+	missing, unexpected := "", ""
+	nMissing, nUnexpected := 0, 0
+	for _, key := range order {
+		if !spec[key] {
+			nUnexpected++
+			if unexpected == "" {
+				unexpected = key
+			}
+		}
+	}
+	var specKeys []string
+	for key := range spec {
+		specKeys = append(specKeys, key)
+	}
+	sort.Strings(specKeys)
+	for _, key := range specKeys {
+		if !have[key] {
+			nMissing++
+			if missing == "" {
+				missing = key
+			}
+		}
+	}
+	v.Count("partitionings_compared_with_specification")
+	v.Oracle(nMissing == 0, "gen.twins:scenario-missing", fmt.Sprintf("%d of the %d specified partitionings are never generated, e.g. %s", nMissing, len(spec), missing),
+		map[string]any{"settings": meta, "scenario": missing, "missing": nMissing, "specified": len(spec), "generated": len(order)})
+	v.Oracle(nUnexpected == 0, "gen.twins:scenario-unexpected", fmt.Sprintf("%d of the %d generated partitionings are not specified, e.g. %s", nUnexpected, len(order), unexpected),
+		map[string]any{"settings": meta, "scenario": unexpected, "unexpected": nUnexpected, "specified": len(spec), "generated": len(order)})
 }
 
 // ---- odometer: drain (or a prefix), plain and shuffled, plus JSON round trip ----
@@ -886,6 +1049,13 @@ func c18Generator(v *verifOut) {
 		byKey[[3]uint8{k.n, k.t, k.k}] = o
 	}
 	c18Scripts(v, byKey)
+
+	// more twin pairs than the bounded domain: option list against the model and against the specification
+	for _, st := range []c18Set{{Nodes: 4, Twins: 3, Parts: 2}, {Nodes: 5, Twins: 3, Parts: 2}, {Nodes: 6, Twins: 3, Parts: 2}, {Nodes: 6, Twins: 2, Parts: 3}, {Nodes: 4, Twins: 3, Parts: 3}} {
+		if _, done := all[optKey{st.Nodes, st.Twins, st.Parts}]; !done {
+			all[optKey{st.Nodes, st.Twins, st.Parts}] = c18Options(v, st, false)
+		}
+	}
 
 	// boundary / malformed settings: no partitions, no nodes, more twins than nodes
 	for _, st := range []c18Set{
